@@ -1,8 +1,19 @@
 import Driver.OpsCore
+import Driver.OpsRoads
+import Driver.OpsAlloc
+import Driver.OpsFn
+import Driver.OpsC03
 import Driver.OpsPTN
 namespace Driver
 
-def handlers : List Handler := [handleCore, handlePTN]
+def handlers : List Handler := [
+  handleCore,
+  handleRoads,
+  handleAlloc,
+  handleFn,
+  handleC03,
+  handlePTN,
+]
 
 def step (st : St) (line : String) : St × String :=
   match (line.trimAscii.toString.splitOn " ").filter (· ≠ "") with
